@@ -57,6 +57,209 @@ def chars_of(vs):
     return chars_of(vs[:-1]) + CHARSET[vs[-1]]
 
 
-@spec
+@spec(opaque=True, sig=[TupleOf(Int)], ret=Bool)
 def in5(vs):
     return forall(range(0, len(vs)), lambda j: 0 <= vs[j] and vs[j] < 32)
+
+
+@spec
+def cs_at(pm, i):
+    return (pm >> 5 * (5 - i)) & 31
+
+
+@spec(opaque=True, sig=[Str, TupleOf(Int)], ret=TupleOf(Int))
+def checksum_of(hrp, data):
+    """the six checksum values: polymod of prefix, data and six zeros, xor 1, most significant group first"""
+    return (cs_at(polymod(hrp_expand(hrp) + data + (0, 0, 0, 0, 0, 0)) ^ 1, 0),
+            cs_at(polymod(hrp_expand(hrp) + data + (0, 0, 0, 0, 0, 0)) ^ 1, 1),
+            cs_at(polymod(hrp_expand(hrp) + data + (0, 0, 0, 0, 0, 0)) ^ 1, 2),
+            cs_at(polymod(hrp_expand(hrp) + data + (0, 0, 0, 0, 0, 0)) ^ 1, 3),
+            cs_at(polymod(hrp_expand(hrp) + data + (0, 0, 0, 0, 0, 0)) ^ 1, 4),
+            cs_at(polymod(hrp_expand(hrp) + data + (0, 0, 0, 0, 0, 0)) ^ 1, 5))
+
+
+@spec(recursive=True, sig=[Str], ret=TupleOf(Int))
+def vals_of(s):
+    """5-bit values of data characters (-1 for a character outside the alphabet)"""
+    if len(s) == 0:
+        return ()
+    return vals_of(s[:-1]) + (CHARSET.find(s[-1]),)
+
+
+@spec
+def sep(bech):
+    """position of the separator: the last '1' of the lower-cased string"""
+    return bech.lower().rfind('1')
+
+
+@spec
+def data_part(bech):
+    """the lower-cased characters after the separator"""
+    return bech.lower()[sep(bech) + 1:]
+
+
+@spec(opaque=True, sig=[Str], ret=Bool)
+def all_charset(s):
+    """every character is one of the 32 data characters"""
+    return forall(range(0, len(s)), lambda j: s[j] in CHARSET)
+
+
+@spec(opaque=True, sig=[Str], ret=Bool)
+def bech32_ok(bech):
+    """BIP173 validity of a Bech32 string (any prefix): printable characters, one letter case, at most 90
+    characters, separator after a non-empty prefix and before at least six data characters, data characters
+    from the alphabet, checksum (polymod of expanded prefix and data values) equal to 1"""
+    return (forall(range(0, len(bech)), lambda j: 33 <= ord(bech[j]) and ord(bech[j]) <= 126)
+            and (bech.lower() == bech or bech.upper() == bech)
+            and sep(bech) >= 1 and sep(bech) + 7 <= len(bech) and len(bech) <= 90
+            and forall(range(0, len(data_part(bech))), lambda j: data_part(bech)[j] in CHARSET)
+            and polymod(hrp_expand(bech.lower()[:sep(bech)]) + vals_of(data_part(bech))) == 1)
+
+
+@spec(opaque=True, sig=[Str], ret=Str)
+def bech_hrp(bech):
+    """the (lower-cased) human-readable prefix"""
+    return bech.lower()[:sep(bech)]
+
+
+@spec(opaque=True, sig=[Str], ret=TupleOf(Int))
+def bech_data(bech):
+    """the data values without the six checksum values"""
+    return vals_of(data_part(bech))[:-6]
+
+
+# ---- regrouping of bit strings (general power-of-two base conversion), reference form ---------------
+def ref_regroup(values, frombits, tobits, pad):
+    """BIP173 reference semantics written over an explicit bit string: None for a value outside
+    [0, 2^frombits); with pad the last group is filled with zero bits; without pad the conversion fails
+    when at least frombits bits are left over or a left-over bit is set"""
+    bits = ''
+    for v in values:
+        if not isinstance(v, int) or v < 0 or v >= (1 << frombits):
+            return None
+        bits += format(v, '0%db' % frombits)
+    whole = len(bits) - len(bits) % tobits
+    out = [int(bits[i:i + tobits], 2) for i in range(0, whole, tobits)]
+    rest = bits[whole:]
+    if pad:
+        if rest:
+            out.append(int(rest.ljust(tobits, '0'), 2))
+    elif len(rest) >= frombits or '1' in rest:
+        return None
+    return out
+
+
+@spec(opaque=True, sig=[TupleOf(Int)], ret=Bool)
+def conv58_ok(vs):
+    """the 5-bit groups vs regroup into whole bytes (fewer than five padding bits, all zero)"""
+    return ref_regroup(list(vs), 5, 8, False) is not None
+
+
+@spec(opaque=True, sig=[TupleOf(Int)], ret=TupleOf(Int))
+def conv58(vs):
+    return tuple(ref_regroup(list(vs), 5, 8, False) or ())
+
+
+@spec(opaque=True, sig=[Bytes], ret=TupleOf(Int))
+def conv85(bs):
+    """bytes regrouped into 5-bit groups, zero-padded"""
+    return tuple(ref_regroup(list(bs), 8, 5, True) or ())
+
+
+@spec
+def prog_ok(d):
+    """witness version and program rules on the data values d of a valid Bech32 string"""
+    return (in5(d[1:]) and conv58_ok(d[1:]) and 2 <= len(conv58(d[1:])) and len(conv58(d[1:])) <= 40
+            and 0 <= d[0] and d[0] <= 16 and (d[0] != 0 or len(conv58(d[1:])) == 20 or len(conv58(d[1:])) == 32))
+
+
+@spec
+def segwit_ok(hrp, addr):
+    """BIP173 validity of a segwit address for the expected prefix"""
+    return bech32_ok(addr) and bech_hrp(addr) == hrp and prog_ok(bech_data(addr))
+
+
+# ---- independent references for the bounded units ---------------------------------------------------
+def _gf32_mul(a, b):
+    """multiplication in GF(32) = GF(2)[a]/(a^5 + a^3 + 1) (BIP173)"""
+    r = 0
+    for i in range(5):
+        if (b >> i) & 1:
+            r ^= a << i
+    for i in range(8, 4, -1):
+        if (r >> i) & 1:
+            r ^= 0b101001 << (i - 5)
+    return r
+
+
+_G = (29, 22, 20, 21, 29, 18)      # g(x) = x^6 + 29x^5 + 22x^4 + 20x^3 + 21x^2 + 29x + 18 over GF(32)
+
+
+def ref_bch(values):
+    """remainder of x^n + v0 x^(n-1) + ... + v(n-1) modulo the BIP173 generator polynomial, packed 6 x 5 bits
+    (polynomial arithmetic over GF(32); no generator bit constants involved)"""
+    r = [0, 0, 0, 0, 0, 1]
+    for v in values:
+        top = r[0]
+        r = r[1:] + [v]
+        for i in range(6):
+            r[i] ^= _gf32_mul(top, _G[i])
+    out = 0
+    for c in r:
+        out = (out << 5) | c
+    return out
+
+
+def ref_bech32_decode(hrp, addr):
+    """BIP173 segwit address decoding from the BIP text with the polynomial checksum and bit-string regrouping"""
+    if not all(33 <= ord(c) <= 126 for c in addr):
+        return None
+    has_lower = any('a' <= c <= 'z' for c in addr)
+    has_upper = any('A' <= c <= 'Z' for c in addr)
+    if has_lower and has_upper:
+        return None
+    if len(addr) > 90:
+        return None
+    low = ''.join(chr(ord(c) + 32) if 'A' <= c <= 'Z' else c for c in addr)
+    if '1' not in low:
+        return None
+    pos = max(i for i, c in enumerate(low) if c == '1')
+    if pos < 1 or len(low) - pos - 1 < 6:
+        return None
+    vals = []
+    for c in low[pos + 1:]:
+        if c not in CHARSET:
+            return None
+        vals.append(CHARSET.index(c))
+    exp = [ord(c) >> 5 for c in low[:pos]] + [0] + [ord(c) & 31 for c in low[:pos]]
+    if ref_bch(exp + vals) != 1:
+        return None
+    if low[:pos] != hrp:
+        return None
+    data = vals[:-6]
+    if not data:
+        return None
+    prog = ref_regroup(data[1:], 5, 8, False)
+    if prog is None or not (2 <= len(prog) <= 40) or data[0] > 16:
+        return None
+    if data[0] == 0 and len(prog) not in (20, 32):
+        return None
+    return (data[0], bytes(prog))
+
+
+def ref_bech32_encode(hrp, witver, prog):
+    data = [witver] + ref_regroup(list(prog), 8, 5, True)
+    exp = [ord(c) >> 5 for c in hrp] + [0] + [ord(c) & 31 for c in hrp]
+    rem = ref_bch(exp + data + [0] * 6) ^ 1
+    chk = [(rem >> 5 * (5 - i)) & 31 for i in range(6)]
+    return hrp + '1' + ''.join(CHARSET[d] for d in data + chk)
+
+
+def corrupted(addr, orig):
+    """addr is orig with one to four characters substituted, or a mixed-case rendering of orig"""
+    if len(addr) != len(orig):
+        return False
+    n = sum(1 for a, b in zip(addr, orig) if a != b)
+    if 1 <= n <= 4 and addr.lower() == addr:
+        return True
+    return addr.lower() == orig and addr != orig and addr != orig.upper()
